@@ -38,6 +38,45 @@ IMPORT_MUTANTS = [
     b'import "PROJ/main";\n', b'import "PROJ/lib";\n', b'import "PROJ/";\n', b'import "PROJ";\n', b'import fn;\n', b'import "std/io" as fn;\n',
 ]
 
+# deterministic family: everything on ONE line, so that diagnostics with two labels (primary + secondary) get both labels on
+# the same source line with nested / overlapping / adjacent spans (function literals, closures, nested blocks with missing
+# returns, unreachable code, type mismatches inside literals, redeclarations, duplicate members, borrow conflicts)
+ONE_LINERS = [
+    b'import "std/io"; fn main() { let pick := fn(a: i32) -> i32 { if a > 0 { return 1; } else { io::Println(a); } }; io::Println(pick(1)); }',
+    b'fn main() { let f := fn(a: i32) -> i32 { let b := a; }; }',
+    b'fn main() { let f := fn(a: i32) -> i32 { if a > 0 { return 1; } }; }',
+    b'fn main() { let f := fn(a: i32) -> i32 { let g := fn(b: i32) -> i32 { if b > 0 { return b; } else { } }; return g(a); }; }',
+    b'fn main() { let f := fn(a: i32) -> i32 { while a > 0 { return 1; } }; }',
+    b'fn main() { let f := fn(a: i32) -> i32 { for i in 0..a { return i; } }; }',
+    b'type C enum { R, G }; fn main() { let f := fn(c: C) -> i32 { match c { C::R => { return 1; } C::G => { } } }; }',
+    b'fn main() { let f := fn() -> i32 { return 1; let x := 2; }; }',
+    b'fn main() { let f := fn(a: i32) -> i32 { return "s"; }; let g := fn(a: i32) -> str { return a; }; }',
+    b'fn main() { let f := fn(a: i32) -> i32 { if a > 0 { return 1; } else { return "no"; } }; }',
+    b'fn g(a: i32) -> i32 { if a > 0 { return 1; } else { } } fn main() { }',
+    b'fn g(a: i32) -> i32 { if a > 0 { return 1; } else if a < 0 { return 2; } } fn main() { let x := g(1); }',
+    b'fn main() { let a := 1; let a := 2; }',
+    b'fn f(a: i32, a: i32) { } fn main() { }',
+    b'import "std/io" as a; import "std/math" as a; fn main() { }',
+    b'fn f() { } fn f() { } fn main() { }',
+    b'type T struct { .x: i32 }; type T struct { .y: i32 }; fn main() { }',
+    b'type P struct { .x: i32, .x: i32 }; fn main() { }',
+    b'type E enum { A, A }; fn main() { }',
+    b'type T struct { .x: i32 }; fn (t: T) m() { } fn (t: T) m() { } fn main() { }',
+    b"fn main() { let a := 1; let r: &'i32 = &'a; let s: &'i32 = &'a; let t := r; }",
+    b'fn main() { const k := 1; k = 2; let v := 1; v = "s"; }',
+    b'fn f(a: i32) { } fn main() { f("s"); f(1, 2); f(); }',
+    b'fn main() { return 1; }',
+    b'fn d(a: i32) -> str ! i32 { return a; } fn main() { let r := d(1) catch e { }; let q := d(2); }',
+    b'fn main() { let f := fn(a: i32) -> i32 { let h := fn() -> i32 { }; return h(); }; let z: str = f(1); }',
+    b'type S interface { a() -> i32 }; type Q struct { .s: i32 }; fn main() { let q: Q = { .s = 1 }; let s: S = q; }',
+    b'\t\tfn main() { let f := fn(a: i32) -> i32 { if a > 0 { return 1; } else { } }; }',
+]
+
+def join_one_line(b):
+    """the same program on one line: line comments dropped, newlines replaced by spaces (multi-label diagnostics collapse)."""
+    b = re.sub(rb"//[^\n]*", b"", b)
+    return re.sub(rb"\s*\r?\n\s*", b" ", b).strip() + b"\n"
+
 def load_seeds():
     seeds = [s.encode() for s in SEEDS_INLINE]
     d = os.path.join(common.REPO, "smoke_test")
@@ -202,6 +241,13 @@ def gen_stream(rng, seeds, lexed, n_mut, n_rand, n_imp, n_lay):
         cases.append((k, {"main.fer": b}))
     for _ in range(n_rand):
         cases.append(("random", {"main.fer": random_bytes(rng)}))
+    # every third malformed program also "joined onto one line", every seed too, plus the deterministic one-line family
+    for k, files in list(cases[:n_mut:3]):
+        cases.append(("joined:" + k.split("+")[0], {"main.fer": join_one_line(files["main.fer"])}))
+    for sd in seeds:
+        cases.append(("joined:seed", {"main.fer": join_one_line(sd)}))
+    for ol in ONE_LINERS:
+        cases.append(("oneline", {"main.fer": ol + b"\n"}))
     for j in range(n_imp):
         m = IMPORT_MUTANTS[j % len(IMPORT_MUTANTS)] if j < len(IMPORT_MUTANTS) else rng.choice(IMPORT_MUTANTS)
         tail = rng.choice([b"", b"fn main() { }\n", seeds[0]])
@@ -826,6 +872,119 @@ def cli_case(work, idx, kind, files, mode, _retry=False):
         bad += artifact_bads(rc == 0, mode, out, text)
     return dict(rc=rc, wall=wall, text=text[:3000], bad=bad)
 
+# ------------------------------------------------------------------------------------------------ emitter tie (label layout)
+
+EMIT_SRC = "\n".join(["y" * 70, "x" * 70, "z" * 70, "w" * 70])
+_DUAL_RE = re.compile(r"^( *)([\^~]+|-+)( *)([\^~]+|-+) (PMSG|SMSG)")
+_SINGLE_RE = re.compile(r"^( *)([\^~]+|-+) (PMSG|SMSG)")
+
+def run_emitter_hook(reqs, timeout=60):
+    hook = os.environ.get("C13_EMITTER_HOOK") or common.build_hook("emitter")
+    res = {}
+    todo = list(reqs); restarts = 0
+    while todo and restarts <= 3:
+        inp = "".join(json.dumps(r) + "\n" for r in todo).encode()
+        try:
+            p = subprocess.run([hook], input=inp, stdout=subprocess.PIPE, stderr=subprocess.PIPE, timeout=timeout,
+                               env=dict(os.environ, NO_COLOR="1"), preexec_fn=common.limit_mem(1.5))
+            out, err = p.stdout, p.stderr.decode("utf8", "replace")
+        except subprocess.TimeoutExpired as e:
+            out, err = e.stdout or b"", "TIMEOUT"
+        for ln in out.split(b"\n"):
+            if ln.strip():
+                try:
+                    j = json.loads(ln.decode("utf8", "replace"))
+                    res[j["id"]] = dict(out=common.strip_ansi(j["out"]), panic=j["panic"])
+                except ValueError:
+                    pass
+        rest = [r for r in todo if r["id"] not in res]
+        if rest:
+            res[rest[0]["id"]] = dict(out="", panic="process died: " + err[:800] + " ... " + err[-800:])
+            rest = rest[1:]; restarts += 1
+        todo = rest
+    return res
+
+def emitter_cases(rng, quick):
+    """label pairs on one source line: exhaustive over small columns (nested / overlapping / adjacent / identical / reversed
+    spans all occur), random wider ones, ends on a later line; single labels; and primary + two secondaries (panic only)."""
+    reqs = []; n = 0
+    R = range(1, 7) if quick else range(1, 10)
+    for ps in R:
+        for pe in R:
+            for ss in R:
+                for se in R:
+                    reqs.append(dict(id=n, kind="dual", src=EMIT_SRC, p=[2, ps, 2, pe], s=[[2, ss, 2, se]])); n += 1
+    for _ in range(200 if quick else 3000):
+        ps, ss = rng.randrange(1, 60), rng.randrange(1, 60)
+        pe, se = ps + rng.randrange(-3, 40), ss + rng.randrange(-3, 40)
+        pl, sl = (3 if rng.random() < 0.15 else 2), (3 if rng.random() < 0.15 else 2)
+        reqs.append(dict(id=n, kind="dual", src=EMIT_SRC, p=[2, ps, pl, max(1, pe)], s=[[2, ss, sl, max(1, se)]])); n += 1
+    for ps in range(1, 12):
+        for pe in range(1, 12):
+            reqs.append(dict(id=n, kind="single", src=EMIT_SRC, p=[2, ps, 2, pe], s=[])); n += 1
+    for _ in range(150 if quick else 1500):
+        a = [rng.randrange(1, 40) for _ in range(6)]
+        l2 = rng.choice([2, 2, 3])
+        reqs.append(dict(id=n, kind="multi", src=EMIT_SRC, p=[2, a[0], 2, a[0] + a[1] - 5], s=[[2, a[2], 2, a[2] + a[3] - 5], [l2, a[4], l2, a[4] + a[5] - 5]])); n += 1
+    for r in reqs:          # columns must be >= 1 (hypothesis of the theorems; Position columns are 1-based)
+        r["p"][3] = max(1, r["p"][3])
+        for x in r["s"]:
+            x[3] = max(1, x[3])
+    return reqs
+
+def emitter_tie(run, rng, quick, budget):
+    """correspondence of Models/DualLabel.v with the REAL emitter + spec-side oracle (no panic while rendering)."""
+    reqs = emitter_cases(rng, quick)
+    res = run_emitter_hook(reqs)
+    dcases = []; scases = []; unparsed = []
+    for r in reqs:
+        o = res.get(r["id"])
+        run.case(("emit", r["kind"], tuple(r["p"]), tuple(map(tuple, r["s"]))), nontrivial=True,
+                 sample={"emitter_labels": {"primary": r["p"], "secondary": r["s"]}, "rendered": (o or {}).get("out", "")[-220:]} if r["id"] == 40 else None)
+        run.count("emitter:" + r["kind"])
+        if o is None:
+            continue
+        if o["panic"]:
+            key = "crash:" + frame_key(o["panic"]) if not o["panic"].startswith("process died") else "crash:emitter-died"
+            run.violation(key, "the diagnostics emitter panics while rendering %s label(s) on one line (primary span cols %d..%d, secondary %s): %s" %
+                          (1 + len(r["s"]), r["p"][1], r["p"][3], [(x[1], x[3]) for x in r["s"]], o["panic"].splitlines()[0][:140]),
+                          {"kind": "emitter", "src": r["src"], "p": r["p"], "s": r["s"], "panic": o["panic"][:1500],
+                           "how": "echo '{\"id\":0,\"src\":...,\"p\":[..],\"s\":[[..]]}' | hook_emitter   (hooks/emitter/main.go)"})
+            continue
+        lines = o["out"].split("\n")
+        ul = None
+        for k, ln in enumerate(lines):
+            if re.match(r"^\s*2 \| x+", ln) and k + 1 < len(lines) and "| " in lines[k + 1]:
+                ul = lines[k + 1].split("| ", 1)[1]
+                break
+        if r["kind"] == "dual":
+            m = _DUAL_RE.match(ul or "")
+            if not m:
+                unparsed.append(r["id"]); continue
+            left_primary = m.group(2)[0] in "^~"
+            dcases.append("(%d, (%d, %d), (%d, %d), (%s, %d, %d, %d, %d))" % (r["id"], r["p"][1], r["p"][3], r["s"][0][1], r["s"][0][3],
+                          common.coq_bool(left_primary), len(m.group(1)), len(m.group(2)), len(m.group(3)), len(m.group(4))))
+        elif r["kind"] == "single":
+            m = _SINGLE_RE.match(ul or "")
+            if not m:
+                unparsed.append(r["id"]); continue
+            scases.append("(%d, (%d, %d), (%d, %d))" % (r["id"], r["p"][1], r["p"][3], len(m.group(1)), len(m.group(2))))
+    run.extra["emitter_cases"] = len(reqs)
+    content = ("From Coq Require Import ZArith List.\nFrom FV Require Import Models.DualLabel.\nImport ListNotations.\nOpen Scope Z_scope.\n"
+               "Definition dcs : list dcase := [\n" + ";\n".join(dcases) + "\n].\nDefinition scs : list scase := [\n" + ";\n".join(scases) + "\n].\n"
+               "Eval vm_compute in (dbad_ids dcs ++ sbad_ids scs).\n")
+    ok, out = common.coq_eval("c13_emit_%d" % run.seed, content, timeout=int(max(30, min(budget.remaining(), 120))))
+    bad = common.parse_bad_ids(out) if ok else None
+    byid = {r["id"]: r for r in reqs}
+    if bad is None:
+        run.violation("correspondence:C13-emitter-eval", "the label-layout model could not be evaluated", {"log": out[-1500:]}, no_input=True)
+    elif bad or unparsed:
+        i = (bad or unparsed)[0]
+        run.violation("correspondence:C13-emitter", "the real emitter and the proved label-layout model disagree on %d of %d renderings (%d not parsable)" %
+                      (len(bad), len(dcases) + len(scases), len(unparsed)),
+                      {"kind": "emitter", "src": EMIT_SRC, "p": byid[i]["p"], "s": byid[i]["s"], "rendered": res[i]["out"][-600:],
+                       "correspondence": "Models/DualLabel.dual_layout vs diagnostics.(*Emitter).printCompactDualLabel"}, no_input=True)
+
 # ------------------------------------------------------------------------------------------------ known-finding probes
 
 def probe_known_findings(run, work):
@@ -1005,6 +1164,9 @@ def main(run):
         bads = check_output(r["ok"], r["panic"], r["out"], fa, libs)
         if not r["panic"]:
             bads += artifact_bads(r["ok"], mode, out, r["out"])
+            ndual = len(re.findall(r"(?m)^\s*\| +(?:[\^~]+ *-+|-+ *[\^~]+)(?: |$)", r["out"]))
+            if ndual:
+                run.count("rendered-two-labels-on-one-line", ndual)
         for key, what in bads:
             size = sum(len(v or b"") for v in files.values())
             if key not in seen_keys or size < seen_keys[key][0]:
@@ -1031,13 +1193,20 @@ def main(run):
         run.violation(rkey, what, replay_dict(k, small, mode, {"observed": (res[i]["panic"] or res[i]["out"])[:1500],
                                                                "time_limit_ms": REQ_TIMEOUT_MS, "address_space_cap_gib": STREAM_MEM_GIB}))
     phase["stream"] = round(time.time() - tph, 1); tph = time.time()
+    # ---------------- emitter tie: label layout model vs the real emitter, panic-freedom of two labels on one line
+    # (after the stream: a crash the stream reached through a Ferret program is reported with that program as replay; the
+    #  same crash site found here is then a duplicate.  Cheap, so it also runs when the stream stopped on fail-fast.)
+    if budget.remaining() > 0:
+        emitter_tie(run, rng, quick, budget)
+    phase["emitter"] = round(time.time() - tph, 1); tph = time.time()
     # ---------------- a sample through the real CLI (exit status, stderr, wall time, output path)
     ncli = 36 if quick else 150
     if budget.stop():
         ncli = 0
         run.extra["tie_stage_truncated"] = (run.extra.get("tie_stage_truncated", "") + "; CLI sample skipped: %s" % budget.why).lstrip("; ")
     ran = [i for i in range(len(meta)) if i in res]
-    pick = ([i for i in ran if meta[i][0] == "seed"] + rng.sample(ran, min(ncli, len(ran)))) if ncli else []
+    pick = ([i for i in ran if meta[i][0] == "seed"] + [i for i in ran if meta[i][0] == "oneline"][:6] +
+            rng.sample(ran, min(ncli, len(ran)))) if ncli else []
     jobs = [(j, meta[i][0], meta[i][1], ("native" if meta[i][0] == "seed" else rng.choice(["t", "native", "native", "wasm"])), i) for j, i in enumerate(pick)]
     if ncli:
         jobs += [(len(jobs) + j, "qbe-probe", {"main.fer": p}, "native", None) for j, p in enumerate(QBE_PROBES)]
@@ -1080,7 +1249,11 @@ def replay(run, path):
     j = json.load(open(path))
     rp = j["replay"]
     work = Work()
-    if rp.get("kind") == "lexer":
+    if rp.get("kind") == "emitter":
+        o = run_emitter_hook([dict(id=0, src=rp["src"], p=rp["p"], s=rp["s"])])[0]
+        print(o["out"]); print(o["panic"][:1500])
+        bad = [("crash:" + frame_key(o["panic"]), "the emitter panics")] if o["panic"] else []
+    elif rp.get("kind") == "lexer":
         src = bytes.fromhex(rp["input_hex"])
         r = run_lexer_hook([src])[0]
         print(json.dumps(r)[:2000])
